@@ -241,6 +241,10 @@ func (v *Verifier) emit(st *State, kind, label string, tags []string, goal *Term
 	o := &Obligation{Name: name, Func: v.curFn, Kind: kind, Label: label, Tags: tags, Goal: goal, Src: src, PathID: v.pathN, Where: where, Expect: "unsat", D: v.D}
 	o.Assume = dedupTerms(st.pc)
 	o.NDecls = -1
+	o.Params = v.curParams
+	if kind == "post" || kind == "impl" {
+		o.Results = v.curResults
+	}
 	v.obls = append(v.obls, o)
 }
 
